@@ -211,7 +211,7 @@ CHECKS = {
         note=(TB_COMMON + "Keras model (re)construction is runtime behaviour outside the model. Recurrent, Bidirectional, BatchNormalization and "
               "folded layers are not generated (they do not build under the pinned Keras 3); SeparableConv and LeakyReLU conversions are "
               "known findings."),
-        technique="Coq proof over an abstract-layer model of the rewriting + differential correspondence on generated Keras models"),
+        technique="Coq proof over an executable model of the conversion (Convert/ModelQuantize.v); the dictionary lookup get_config and the activation map quantize_activation are REGENERATED from qkeras/utils.py on every run (tools/translate/convertgen.py) with re-proved link lemmas; + differential correspondence on generated (model, dictionary) pairs"),
     "C13": dict(
         category="translation_validation",
         text=("Two halves. (1) Proof, over tables regenerated from /repo on every run: every registered quantizer and every core quantized "
